@@ -462,6 +462,10 @@ theorem remove_isObj : ∀ (f : List String) (d d' : J), d.isObj = true → remo
           split at h <;> (simp [pure, Except.pure] at h; subst h; rfl)
     | _ => simp [remove] at h
 
+theorem remove2_isObj {e e' : J} {f t : List String} (ho : e.isObj = true) (h : remove2 e f t = .ok e') : e'.isObj = true := by
+  obtain ⟨e1, r1, r2⟩ := remove2_ok h
+  exact remove_isObj t e1 e' (remove_isObj f e e1 ho r1) r2
+
 theorem ignoreFields_isObj : ∀ (ig : List (List String)) (e e' : J), e.isObj = true →
     ignoreFields e ig = .ok e' → e'.isObj = true
   | [], e, e', ho, h => by simp [ignoreFields] at h; subst h; exact ho
